@@ -13,8 +13,11 @@ struct Event
 {
     std::vector<std::string> argv;
     Env env;
+    int replace = -1; // >= 0: not a parse - a freshly built parser with declaration #replace is move-assigned into the object
     std::string str() const
     {
+        if (replace >= 0)
+            return "REPLACE-BY-DECLARATION-" + std::to_string(replace);
         return mc::jlist(argv) + " env=" + env_json(env);
     }
 };
@@ -78,6 +81,12 @@ static std::vector<Event> events()
     for (auto& e : es)
         for (auto& v : vs)
             out.push_back({ v, e });
+    for (int d = 0; d < 4; d++)
+    {
+        Event r;
+        r.replace = d;
+        out.push_back(r);
+    }
     return out;
 }
 
@@ -138,7 +147,7 @@ static std::string history_json(const Decl& D, const std::vector<Event>& h)
 {
     std::string evs = "[";
     for (size_t i = 0; i < h.size(); i++)
-        evs += (i ? "," : "") + mc::J().l("argv", h[i].argv).raw("env", env_json(h[i].env)).str();
+        evs += (i ? "," : "") + mc::J().l("argv", h[i].argv).raw("env", env_json(h[i].env)).n("replace", h[i].replace).str();
     evs += "]";
     return mc::J().s("decl", D.str()).raw("declaration", decl_json(D)).raw("history", evs).str();
 }
@@ -147,37 +156,50 @@ static std::string history_json(const Decl& D, const std::vector<Event>& h)
 static int run_history(const Decl& D, const std::vector<Event>& h, std::string* detail, std::string* state_key = nullptr,
                        mc::Report* rep = nullptr)
 {
+    static const std::vector<Decl> all = declarations();
     nitro::options::parser p;
     build(p, D);
+    Decl cur = D;
     for (size_t i = 0; i < h.size(); i++)
     {
-        std::string before = rep ? public_state(p, D) : "";
-        auto got = outcome(p, D, h[i]);
+        if (h[i].replace >= 0)
+        {
+            // the parser object gets a new declaration by move assignment from a freshly built parser
+            cur = all[h[i].replace];
+            nitro::options::parser np;
+            build(np, cur);
+            p = std::move(np);
+            continue;
+        }
+        std::string before = rep ? public_state(p, cur) : "";
+        auto got = outcome(p, cur, h[i]);
         nitro::options::parser fresh;
-        build(fresh, D);
-        auto want = outcome(fresh, D, h[i]);
+        build(fresh, cur);
+        auto want = outcome(fresh, cur, h[i]);
         if (rep)
         {
             rep->count("executions", 2);
-            rep->states.insert(mc::hash(D.str() + before));
-            rep->transitions.insert(mc::hash(D.str() + before + "|" + h[i].str()));
+            rep->states.insert(mc::hash(cur.str() + before));
+            rep->transitions.insert(mc::hash(cur.str() + before + "|" + h[i].str()));
             rep->outcomes.insert(mc::hash(got));
         }
         if (got != want)
         {
             if (detail)
-                *detail = "event #" + std::to_string(i + 1) + " " + h[i].str() + ": reused parser gives " + got +
+                *detail = "event #" + std::to_string(i + 1) + " " + h[i].str() + " (declaration now {" + cur.str() + "}): reused parser gives " + got +
                           " ; fresh parser gives " + want;
             return static_cast<int>(i);
         }
     }
     if (state_key)
-        *state_key = public_state(p, D);
+        *state_key = cur.str() + "|" + public_state(p, cur);
     return -1;
 }
 
 static std::string event_class(const Decl& D, const Event& e)
 {
+    if (e.replace >= 0)
+        return "[REPLACE]";
     auto r = refparse(D, e.argv, e.env);
     return "[" + class_seq(D, e.argv) + (e.env.empty() ? "" : " |env") + (r.ok ? " ok" : " fails") + "]";
 }
@@ -224,7 +246,7 @@ int main(int argc, char** argv)
         Decl D = decl_from(w.at("declaration"));
         std::vector<Event> h;
         for (auto& e : w.at("history").arr)
-            h.push_back({ e.strings("argv"), env_from(e) });
+            h.push_back({ e.strings("argv"), env_from(e), static_cast<int>(e.n("replace", -1)) });
         std::string detail;
         int at = run_history(D, h, &detail);
         printf("replay C14: declaration %s, %zu events\n  %s\n", D.str().c_str(), h.size(),
@@ -289,7 +311,7 @@ int main(int argc, char** argv)
                              {
                                  nitro::options::parser p;
                                  build(p, D);
-                                 seen.insert(public_state(p, D));
+                                 seen.insert(D.str() + "|" + public_state(p, D));
                              }
                              long expanded = 0;
                              int maxdepth = 0;
